@@ -197,6 +197,14 @@ class Check:
                               + "; ".join(errs[:2]))
             if not os.path.exists(DRIVER):
                 raise MachineryError("nvdriver does not build and no previous binary exists:\n" + "\n".join(errs[:10]))
+            # the previous binary is only usable if none of the sources of THIS property's families is newer
+            # than it (otherwise the answers would come from an out-of-date model: false disagreements)
+            built = os.path.getmtime(DRIVER)
+            newer = [d for d in (deps if families else []) if os.path.exists(os.path.join(LEAN, d))
+                     and os.path.getmtime(os.path.join(LEAN, d)) > built]
+            if newer:
+                raise MachineryError("nvdriver cannot be rebuilt (failure in another unit's files: " + "; ".join(errs[:2])
+                                     + ") and the previous binary is older than " + ", ".join(sorted(newer)[:4]))
         return False
 
     # ------------------------------------------------------------- obligations
